@@ -38,7 +38,7 @@ def one(args):
 if __name__ == "__main__":
     allp = "--all-props" in sys.argv
     ids = [a for a in sys.argv[1:] if not a.startswith("--")] or sorted(os.listdir(os.path.join(VERIF, "seeded")))
-    ids = [i for i in ids if os.path.isdir(os.path.join(VERIF, "seeded", i))]
+    ids = [i for i in ids if os.path.isdir(os.path.join(VERIF, "seeded", i)) and os.path.exists(os.path.join(VERIF, "seeded", i, "patch.diff"))]
     from sa import props as _P
     prime(sorted(_P.P) if allp else sorted({i.split("-")[0] for i in ids}))
     with multiprocessing.get_context("fork").Pool(min(16, len(ids))) as pool: rs = pool.map(one, [(i, allp) for i in ids], chunksize=1)
